@@ -197,12 +197,28 @@ def promises(case, t, dims):
         c = None
     p['continuity'] = c
     p['patchcontinuity'] = None
+    graded_patch = False
     if t.patchsize:
         p['patchcontinuity'] = 0 if kw.get('patchcontinuous', True) else -1
-    p['independent'] = True
+        km = kw.get('knotmultiplicities')
+        if km and bt == 'spline':
+            # inside a patch the continuity at a knot is degree - multiplicity; the weakest knot bounds all of them
+            p['continuity'] = degs[0] - max(km['*'][1:-1]) if len(km['*']) > 2 else degs[0] - 1
+        if bt == 'std':
+            p['continuity'] = 0
+        kv = kw.get('knotvalues')
+        if kv and not numpy.allclose(numpy.diff(kv['*']), numpy.diff(kv['*'])[0]):
+            # the patch geometry is uniform in the parameter, so smoothness beyond C^0 and polynomial reproduction
+            # hold in knot-value coordinates only, which the multipatch geometry does not provide
+            graded_patch = True
+            if p['continuity'] is not None:
+                p['continuity'] = min(p['continuity'], 0)
+    # clipping to parts keeps independence only if the parent is locally linearly independent; hierarchical bases are not
+    p['independent'] = not (derive and derive['kind'] == 'partition' and bt.startswith(('h-', 'th-')))
     periodic = bool(t.spec.get('periodic')) if kw.get('periodic') is None else bool(kw.get('periodic'))
     p['periodic'] = periodic
-    p['polyspace'] = complete and not periodic and not t.boundary
+    p['polyspace'] = complete and not periodic and not t.boundary and not graded_patch
+    p['trimmed'] = 'trim' in t.kind
     return p
 
 
@@ -221,6 +237,11 @@ def _relerr(a, b):
     return float(abs(a - b).max()) if a.size else 0.
 
 
+def _amax(a):
+    a = numpy.asarray(a)
+    return float(abs(a).max()) if a.size else 0.
+
+
 def elementwise(t, basis, vals, idx, coords, fails, stats, label=''):
     '''per element: shapes, dof ranges, values == polynomials from get_coefficients at the local points,
     non-zero pattern inside get_dofs; returns element->dofs list'''
@@ -228,10 +249,12 @@ def elementwise(t, basis, vals, idx, coords, fails, stats, label=''):
     ndofs = len(basis)
     nd = coords.shape[1]
     elemdofs = []
+    elemcoeffs = []
     for i in range(nelems):
         dofs = numpy.asarray(basis.get_dofs(i))
         coeffs = numpy.asarray(basis.get_coefficients(i))
         elemdofs.append(dofs)
+        elemcoeffs.append(coeffs)
         if dofs.ndim != 1 or dofs.dtype.kind not in 'iu':
             fails.add(label + 'dofs-shape', 'get_dofs({}) = {!r}'.format(i, dofs))
             continue
@@ -262,7 +285,7 @@ def elementwise(t, basis, vals, idx, coords, fails, stats, label=''):
         if outside.any() and abs(got[:, outside]).max() > TOL:
             d = int(numpy.nonzero(outside)[0][abs(got[:, outside]).max(axis=0).argmax()])
             fails.add(label + 'nonzero-outside-dofs', 'element {}: function {} evaluates to {:.3e} but is not in get_dofs = {}'.format(i, d, float(abs(got[:, d]).max()), dofs.tolist()))
-        scale = max(1., float(abs(expect).max()))
+        scale = max(1., _amax(expect))
         if _relerr(got, expect) > TOL * scale:
             d = int(abs(got - expect).max(axis=0).argmax())
             fails.add(label + 'values', 'element {}: function {} evaluates to {} but its coefficients give {}'.format(i, d, got[:, d][:3].tolist(), expect[:, d][:3].tolist()))
@@ -270,7 +293,7 @@ def elementwise(t, basis, vals, idx, coords, fails, stats, label=''):
         for j, d in enumerate(dofs):
             if not (abs(expect[:, d]) > 1e-13).any() and (dofs == d).sum() == 1:
                 stats['listed-zero'] = stats.get('listed-zero', 0) + 1
-    return elemdofs
+    return elemdofs, elemcoeffs
 
 
 def supports(t, basis, elemdofs, fails, label=''):
@@ -338,10 +361,28 @@ def physical(t, dims, g):
     return x
 
 
-def continuity(t, basis, prom, dims, fails, stats):
+def jacobians(ctx, x):
+    'per element the inverse jacobian of local -> physical coordinates, fitted to the sample (elements are affine)'
+    out = {}
+    for i in range(len(ctx.t.topo)):
+        sel = ctx.idx == i
+        J, r = ref.affine_fit(ctx.coords[sel], x[sel])
+        if J.shape[0] != J.shape[1] or r > 1e-10 * max(1., float(abs(x[sel]).max())) or abs(numpy.linalg.det(J)) < 1e-12:
+            return None
+        out[i] = numpy.linalg.inv(J)
+    return out
+
+
+def continuity(ctx, basis, elemdofs, elemcoeffs, prom, dims, fails, stats, x, nutils_derivs=False):
     '''jump of the k-th derivative is zero on every interface for k <= advertised continuity and non-zero
-    on at least one interface (per knot on structured grids) for k+1'''
+    on at least one interface (per knot on structured grids) for k+1.
+
+    The one-sided values on the interfaces are evaluated by nutils (basis, opposite(basis), jump(basis)) and must
+    equal the coefficient polynomials of the two neighbouring elements; derivatives are those of the coefficient
+    tables (numpy), mapped to physical coordinates with the affine element maps.  With nutils_derivs the jumps
+    of function.grad(...) are evaluated as well and must agree.'''
     from nutils import function
+    t = ctx.t
     topo = t.topo
     try:
         ifc = topo.interfaces
@@ -352,6 +393,7 @@ def continuity(t, basis, prom, dims, fails, stats):
     if nifc == 0:
         return
     nd = t.ndims
+    ndofs = len(basis)
     degs = prom['degs']
     if dims is not None:
         kmax = max(max(dim['cont']) for dim in dims)
@@ -359,37 +401,67 @@ def continuity(t, basis, prom, dims, fails, stats):
         return
     else:
         kmax = max(c for c in (prom['continuity'], prom['patchcontinuity']) if c is not None)
-    K = max(0, min(kmax + 1, max(degs) if dims is not None or True else 0))
-    if t.boundary:
+    K = max(0, min(kmax + 1, max(degs)))
+    Jinv = None if t.boundary else jacobians(ctx, x)
+    if Jinv is None:
         K = 0
+        stats['derivatives-skipped'] = 1
     geom = t.geom * t.scale if t.struct is not None else t.geom
-    funcs = [geom, function.normal(geom) if not t.boundary else geom, topo.f_index, function.opposite(topo.f_index), function.jump(basis)]
-    g = basis
-    for k in range(K + 1):
-        if k:
+    funcs = [geom, function.normal(geom) if not t.boundary else geom, topo.f_index, function.opposite(topo.f_index),
+             topo.f_coords, function.opposite(topo.f_coords), basis, function.opposite(basis), function.jump(basis)]
+    if nutils_derivs and dims is not None and K and all(numpy.allclose(numpy.diff(dim['kv']), 1) for dim in dims):
+        g = basis
+        for k in range(1, K + 1):
             g = function.grad(g, geom)
-        funcs += [g, function.opposite(g)]
+            funcs.append(function.jump(g))
     ism = ifc.sample('gauss', 1 if nd == 1 else 3)
     out = ism.eval(funcs)
-    x, normal, e1, e2, jmp = out[:5]
-    sides = [(out[5 + 2 * k], out[6 + 2 * k]) for k in range(K + 1)]
-    npts = len(x)
+    pos, normal, e1, e2, xi1, xi2, v1, v2, jmp = out[:9]
+    njumps = out[9:]
+    npts = len(pos)
     stats['interface-points'] = stats.get('interface-points', 0) + npts
-    if _relerr(jmp, sides[0][1] - sides[0][0]) > TOL:
+    if _relerr(jmp, v2 - v1) > TOL:
         fails.add('jump-inconsistent', 'jump(basis) != opposite(basis) - basis on the interfaces')
+    # one-sided derivative tensors from the coefficient tables
+    sides = [[numpy.zeros((npts, ndofs) + (nd,) * k) for k in range(K + 1)] for side in (0, 1)]
+    for side, (el, xi) in enumerate(((e1, xi1), (e2, xi2))):
+        for i in sorted(set(el.tolist())):
+            sel = numpy.nonzero(el == i)[0]
+            for k in range(K + 1):
+                D = ref.poly_derivative_tensor(elemcoeffs[i], xi[sel], k)
+                if k:
+                    D = ref.to_physical(D, Jinv[i], k)
+                tmp = numpy.zeros((len(sel), ndofs) + (nd,) * k)
+                for j, d in enumerate(elemdofs[i]):
+                    tmp[:, d] += D[:, j]
+                sides[side][k][sel] = tmp
+    for side, v in enumerate((v1, v2)):
+        if _relerr(v, sides[side][0]) > TOL * max(1., _amax(v)):
+            j = numpy.unravel_index(abs(v - sides[side][0]).argmax(), v.shape)
+            fails.add('interface-values', '{} on the interface at {} evaluates function {} to {!r} but the coefficients of element {} give {!r}'.format(
+                ('basis', 'opposite(basis)')[side], pos[j[0]].tolist(), int(j[1]), float(v[j]), int((e1, e2)[side][j[0]]), float(sides[side][0][j])))
+            return
+    for k, nj in enumerate(njumps, start=1):
+        mine = sides[1][k] - sides[0][k]
+        if _relerr(nj, mine) > TOL * 100 * max(1., float(abs(sides[0][k]).max())):
+            fails.add('derivative-jump-inconsistent', 'jump(grad^{} basis) evaluates to {:.6e} where the coefficient tables give {:.6e}'.format(k, _amax(nj), _amax(mine)))
+            return
+        stats['nutils-derivative-jumps'] = stats.get('nutils-derivative-jumps', 0) + 1
     # classify interface points
-    groups = {}   # group key -> (advertised continuity, list of point indices, max degree for non-vacuity)
+    groups = {}   # group key -> [advertised continuity, point indices, degree bound for the non-vacuity test]
     if dims is not None:
         dirs = abs(normal).argmax(axis=1)
         for ipt in range(npts):
             d = int(dirs[ipt])
             dim = dims[d]
-            knot = int(round(x[ipt, d]))
-            if abs(x[ipt, d] - knot) > 1e-9:
-                fails.add('harness-interface-position', 'interface point {} is not on a knot'.format(x[ipt].tolist()))
+            knot = int(round(pos[ipt, d]))
+            if abs(pos[ipt, d] - knot) > 1e-9:
+                fails.add('harness-interface-position', 'interface point {} is not on a knot'.format(pos[ipt].tolist()))
                 return
             knot = knot % dim['n'] if dim['periodic'] else knot
-            nonvac = not (dim['periodic'] and dim['nd'] < 2)
+            # non-vacuity is a theorem only where the knot belongs to the basis: not for a single wrapped function, and not
+            # on the seam of a periodic topology carrying a non-periodic basis
+            nonvac = dim['nd'] >= 2 if dim['periodic'] else 0 < knot < dim['n']
             groups.setdefault((d, knot), [dim['cont'][knot], [], dim['p'] if nonvac else -1])[1].append(ipt)
     elif t.patchsize:
         for ipt in range(npts):
@@ -400,29 +472,15 @@ def continuity(t, basis, prom, dims, fails, stats):
             groups.setdefault('inner' if same else 'patch', [c, [], min(degs)])[1].append(ipt)
     else:
         groups['all'] = [prom['continuity'], list(range(npts)), min(degs)]
-    # scaling of index-coordinate derivatives to the coordinates of the knot values
-    def scaled(k, side, pts):
-        a = sides[k][side][pts]
-        if dims is None or k == 0 or all(numpy.allclose(numpy.diff(dim['kv']), 1) for dim in dims):
-            return a
-        el = (e1, e2)[side][pts]
-        multi = numpy.array(numpy.unravel_index(el, [dim['n'] for dim in dims])).T    # (npts, nd)
-        inv_h = numpy.stack([1. / numpy.diff(dim['kv'])[multi[:, d]] for d, dim in enumerate(dims)], axis=1)  # (npts, nd)
-        a = a.copy()
-        for axis in range(k):
-            shape = [len(pts), 1] + [1] * k
-            shape[2 + axis] = nd
-            a = a * inv_h.reshape(shape)
-        return a
     for key, (c, pts, pdeg) in groups.items():
         pts = numpy.array(pts)
         for k in range(0, min(c, K) + 1):
-            a, b = scaled(k, 0, pts), scaled(k, 1, pts)
-            scale = max(1., float(abs(a).max()), float(abs(b).max()))
+            a, b = sides[0][k][pts], sides[1][k][pts]
+            scale = max(1., _amax(a), _amax(b))
             if float(abs(a - b).max()) > TOL * scale * 10:
                 j = numpy.unravel_index(abs(a - b).argmax(), a.shape)
                 fails.add('continuity', 'interface group {}: jump of derivative {} of function {} is {:.3e} at {} (advertised C^{})'.format(
-                    key, k, int(j[1]), float(abs(a - b).max()), x[pts[j[0]]].tolist(), c))
+                    key, k, int(j[1]), float(abs(a - b).max()), pos[pts[j[0]]].tolist(), c))
                 break
         else:
             stats['continuity-groups'] = stats.get('continuity-groups', 0) + 1
@@ -431,7 +489,7 @@ def continuity(t, basis, prom, dims, fails, stats):
             if k <= min(pdeg, K) and (dims is not None or len(real)):
                 if dims is None:
                     pts = real
-                a, b = scaled(k, 0, pts), scaled(k, 1, pts)
+                a, b = sides[0][k][pts], sides[1][k][pts]
                 if float(abs(a - b).max()) <= NZ:
                     fails.add('smoother-than-advertised', 'interface group {}: derivative {} of every function is continuous, advertised is exactly C^{}'.format(key, k, c))
                 else:
@@ -544,11 +602,11 @@ def check_case(case, stats=None, ctx=None):
         return fails
     if not d:
         ctx._pvals = vals
-    elemdofs = elementwise(t, basis, vals, idx, coords, fails, stats)
+    elemdofs, elemcoeffs = elementwise(t, basis, vals, idx, coords, fails, stats)
     if fails:
         return fails
     supports(t, basis, elemdofs, fails)
-    if _relerr(ssum, vals.sum(axis=1)) > TOL * max(1., float(abs(vals).max())):
+    if _relerr(ssum, vals.sum(axis=1)) > TOL * max(1., _amax(vals)):
         fails.add('sum-inconsistent', 'eval(basis.sum(0)) differs from eval(basis).sum(1) by {:.3e}'.format(_relerr(ssum, vals.sum(axis=1))))
     if prom['pou']:
         stats['pou'] = 1
@@ -577,9 +635,19 @@ def check_case(case, stats=None, ctx=None):
             if vals.shape != want.shape or _relerr(vals, want) > TOL:
                 fails.add('partition-restriction', 'the partitioned basis is not the stack per part of the clipped parent functions ({} vs {} functions)'.format(vals.shape[1], want.shape[1]))
     if prom['independent']:
-        r = ref.rank(vals)
+        A = vals
+        if prom['trimmed']:
+            # a sliver of a cut element makes the restricted functions numerically dependent although they are not; judge
+            # independence on whole elements instead, from the (already verified) coefficient tables
+            pts = ref.element_points(t.ndims, t.ndims * prom['polydeg'])
+            A = numpy.zeros((nelems * len(pts), ndofs))
+            for i in range(nelems):
+                pv = ref.polyval(elemcoeffs[i], pts)
+                for j, dof in enumerate(elemdofs[i]):
+                    A[i * len(pts):(i + 1) * len(pts), dof] += pv[:, j]
+        r = ref.rank(A)
         if r != ndofs:
-            fails.add('linear-dependence', 'collocation matrix on {} points has rank {} for {} functions'.format(len(vals), r, ndofs))
+            fails.add('linear-dependence', 'collocation matrix on {} points has rank {} for {} functions'.format(len(A), r, ndofs))
     x = physical(t, dims, g)
     if prom['polyspace'] and ndofs:
         simplexlike = t.kind.startswith('unitsquare') and t.spec.get('etype') != 'square' or case['btype'] == 'bubble'
@@ -615,7 +683,8 @@ def check_case(case, stats=None, ctx=None):
                     fails.add('spline-space', 'not the periodic B-splines of the knot vector: ' + m)
     skipc = d or (_removes(case['kw']) and case['kw'].get('knotmultiplicities') is not None)
     if not skipc and not any(o not in SOFT for o, w in fails):
-        continuity(t, basis, prom, dims, fails, stats)
+        simple = set(case['kw']) <= {'degree', 'continuity'} and t.kind == 'rect' and (t.ndims == 1 or max(prom['degs']) <= 1)
+        continuity(ctx, basis, elemdofs, elemcoeffs, prom, dims, fails, stats, x, nutils_derivs=simple)
     return fails
 
 
@@ -683,7 +752,7 @@ def check_product(case, stats=None):
     A = factor(ba, ia, xa, na)
     B = factor(bb, ib, xb, nb)
     expect = (A[:, :, None] * B[:, None, :]).reshape(len(A), -1)
-    if _relerr(vals, expect) > TOL * max(1., float(abs(expect).max())):
+    if _relerr(vals, expect) > TOL * max(1., _amax(expect)):
         j = int(abs(vals - expect).max(axis=0).argmax())
         fails.add('values', 'product function {} = ({},{}) is not the product of the factor polynomials (difference {:.3e})'.format(j, j // nb, j % nb, _relerr(vals, expect)))
     if case['btype'] in POU:
@@ -700,10 +769,16 @@ def check_product(case, stats=None):
     jmp = ism.eval(function.jump(basis))
     stats['interface-points'] = len(jmp)
     bt = case['btype']
-    c = -1 if bt in ('discont', 'legendre') or (bt.endswith('spline') and min(_tup(kw['degree'], ta.ndims + tb.ndims)) == 0) else 0
-    if len(jmp):
+    pmin = min(_tup(kw['degree'], ta.ndims + tb.ndims))
+    if bt in ('discont', 'legendre'):
+        c = -1
+    elif pmin >= 1:
+        c = 0
+    else:
+        c = None    # a direction of degree zero is discontinuous, the others are not: nothing uniform to claim
+    if len(jmp) and c is not None:
         if c >= 0 and abs(jmp).max() > TOL:
-            fails.add('continuity', 'jump of product function {} is {:.3e} (advertised C^0)'.format(int(abs(jmp).max(axis=0).argmax()), float(abs(jmp).max())))
+            fails.add('continuity', 'jump of product function {} is {:.3e} (advertised C^0)'.format(int(abs(jmp).max(axis=0).argmax()), _amax(jmp)))
         elif c < 0 and abs(jmp).max() <= NZ:
             fails.add('smoother-than-advertised', 'every function of a discontinuous product basis is continuous')
         else:
